@@ -141,8 +141,7 @@ Section WR.
     - destruct (find_trk (db_trks t) (trk_uuid k)); [|first [exact I|exact H]].
       apply IH. eapply (st_frame P HS); [|apply (st_trk_status P HS); first [exact I|exact H]]. repeat split.
     - destruct (mem_uuid (trk_uuid k) (reorged t)); [apply IH; first [exact I|exact H]|].
-      destruct (t_conf k); [|apply IH; first [exact I|exact H]].
-      destruct (u32_sub h (t_height k)); [apply IH; first [exact I|exact H]|first [exact I|exact H]].
+      destruct (t_conf k); apply IH; first [exact I|exact H].
   Qed.
 
   Lemma reorged_loop_pres sc h us : forall t rej, P t -> pres P (reorged_loop sc h us t rej).
